@@ -21,6 +21,9 @@ pub enum Tier {
 pub struct Fail {
     pub kind: String,
     pub detail: String,
+    /// index of the failing configuration, where the case has several
+    #[serde(default)]
+    pub cfg: Option<usize>,
 }
 
 #[derive(Clone, Debug)]
@@ -85,7 +88,7 @@ pub trait Property {
     fn concretize(&self, g: &Self::Gen) -> Self::Case;
     fn check(&self, c: &Self::Case, stats: &mut Stats) -> Outcome;
     /// Post-shrink minimisation keeping the failure kind (default: none).
-    fn minimize(&self, c: Self::Case, _kind: &str) -> Self::Case {
+    fn minimize(&self, c: Self::Case, _fail: &Fail) -> Self::Case {
         c
     }
     /// Deterministic extra work besides generated cases (exhaustive sub-spaces,
@@ -168,7 +171,7 @@ pub fn run_shard<P: Property>(p: &P, tier: Tier, seed: u64, shard: usize, shards
         let mut r = rep.borrow_mut();
         let mut stats = std::mem::take(&mut r.stats);
         for (case, f) in p.fixed_work(tier, shard, shards, &mut stats) {
-            let case = p.minimize(case, &f.kind);
+            let case = p.minimize(case, &f);
             r.findings.push(Finding { kind: f.kind, detail: f.detail, case: serde_json::to_value(&case).unwrap(), unshrunk: None });
         }
         r.stats = stats;
@@ -256,6 +259,8 @@ pub fn run_shard<P: Property>(p: &P, tier: Tier, seed: u64, shard: usize, shards
                         *first_fail_case.borrow_mut() = Some(serde_json::to_value(&case).unwrap());
                         if f.kind != "hang" {
                             crate::judge::FAST_REJECT.store(true, std::sync::atomic::Ordering::Relaxed);
+                        } else {
+                            crate::judge::HANG_SHRINK.store(true, std::sync::atomic::Ordering::Relaxed);
                         }
                     } else if let Some(prev) = &*last_fail.borrow() {
                         // shrinking must preserve the failure kind
@@ -274,16 +279,33 @@ pub fn run_shard<P: Property>(p: &P, tier: Tier, seed: u64, shard: usize, shards
                 let case = p.concretize(&g);
                 let f = last_fail.borrow().clone().unwrap();
                 MIN_DEADLINE.with(|d| d.set(Some(Instant::now() + std::time::Duration::from_secs(if tier == Tier::Quick { 45 } else { 240 }))));
-                let case = p.minimize(case, &f.kind);
+                let case = p.minimize(case, &f);
                 MIN_DEADLINE.with(|d| d.set(None));
-                // re-derive the detail from the minimal case
+                // re-derive the detail from the minimal case, with full confirmation
                 crate::judge::FAST_REJECT.store(false, std::sync::atomic::Ordering::Relaxed);
+                crate::judge::HANG_SHRINK.store(false, std::sync::atomic::Ordering::Relaxed);
                 let mut scratch = Stats::default();
-                let f = match p.check(&case, &mut scratch) {
-                    Outcome::Fail(f2) => f2,
-                    _ => f,
-                };
-                rep.borrow_mut().findings.push(Finding { kind: f.kind, detail: f.detail, case: serde_json::to_value(&case).unwrap(), unshrunk: first_fail_case.borrow().clone() });
+                let unshrunk = first_fail_case.borrow().clone();
+                match p.check(&case, &mut scratch) {
+                    Outcome::Fail(f2) if f2.kind == f.kind => {
+                        rep.borrow_mut().findings.push(Finding { kind: f2.kind, detail: f2.detail, case: serde_json::to_value(&case).unwrap(), unshrunk });
+                    }
+                    _ => {
+                        // the shrunk case does not reproduce under full confirmation: report the original
+                        let orig = unshrunk.clone().unwrap();
+                        let (kind, detail) = match serde_json::from_value::<P::Case>(orig.clone()).ok().map(|c| p.check(&c, &mut scratch)) {
+                            Some(Outcome::Fail(f3)) => (f3.kind, f3.detail),
+                            _ => (f.kind.clone(), format!("{} (did not reproduce on re-check: flaky?)", f.detail)),
+                        };
+                        if kind == f.kind && !detail.contains("did not reproduce") {
+                            rep.borrow_mut().findings.push(Finding { kind, detail, case: orig, unshrunk: None });
+                        } else {
+                            let mut r = rep.borrow_mut();
+                            r.inconclusive_count += 1;
+                            r.inconclusive.push(format!("failure did not reproduce: {detail}: {orig}"));
+                        }
+                    }
+                }
             }
             Err(TestError::Abort(why)) => {
                 rep.borrow_mut().error = Some(format!("proptest aborted: {why}"));
@@ -313,7 +335,7 @@ thread_local! {
     pub static MIN_DEADLINE: std::cell::Cell<Option<Instant>> = std::cell::Cell::new(None);
 }
 
-fn past_deadline() -> bool {
+pub fn past_deadline() -> bool {
     MIN_DEADLINE.with(|d| d.get().map(|t| Instant::now() > t).unwrap_or(false))
 }
 
